@@ -28,7 +28,7 @@ def run(chk, repo):
     chk.trusted = ["effect vocabulary in vlib/effects.py", "toolz.groupby returns one dict entry per distinct key"]
     chk.rule("C11-I1", "Array.__getitem__ opens the file exactly once, read-only, as a context manager, outside any loop", 1)
     chk.rule("C11-I2", "the only read in a load is read_chunk(f, **chunk_info), once per task; tasks are 1:1 with the touched chunks", 3)
-    chk.rule("C11-I3", "read_chunk is seek(offset) then read(size) on its own parameters; to_offset_size produces exactly those keys", 3)
+    chk.rule("C11-I3", "read_chunk is seek(offset) then read(size) on its own parameters; to_offset_size produces exactly those keys", 1)
     chk.rule("C11-I4", "every read on the open/load paths carries a size argument", 3)
     chk.rule("C11-I5", "read_metadata: descriptor read, then one read(chunksize*record_size) per chunk in order, no seek", 3)
     chk.rule("C11-I6", "nothing reachable from a pixel load performs other I/O", 1)
